@@ -314,4 +314,8 @@ def run(ctx, chk):
             chk.ob("C01.null", "%s: %s result -> %s" % (g.name, origin.callee, use), ok, e.ins.loc(), fn=g.name,
                    key="%s:%s:%s" % (g.name, origin.callee, use), detail="" if ok else detail)
     chk.floor("C01.null", "allocation result uses", nn, 70)
+    chk.rule("C01.no-bypass", "no block changes hands between the installed allocator and libc: a pointer libc never produced is never "
+                              "passed to libc free (undefined behaviour), shared with C13.ext")
+    import rules as _r1
+    _r1.check_no_bypass(chk, "C01.no-bypass", prog)
     chk.exhaustive = True
